@@ -213,8 +213,12 @@ def _validate_rect(W, n, r):
             ok += 1
         else:
             # tolerate only boundary cases (|margin| tiny) — report others as oracle disagreement
-            r["inconclusive"].append(f"concrete validation disagreement (cone W={W.tolist()}, "
-                                     f"l1={l1}, u1={u1}, l2={l2}, u2={u2}, s={s}: code={code} oracle={orc})")
+            fj = lambda v: frac_json([Fraction(float(x)) for x in v])  # noqa
+            r["violations"].append({"obligation": "concrete validation: real code vs exact oracle", "reproduced": True,
+                                    "case": {"kind": "rect", "cone": "validation", "W": W.tolist(), "l1": fj(l1),
+                                             "u1": fj(u1), "l2": fj(l2), "u2": fj(u2), "s": fj(s)},
+                                    "replay_detail": f"code={code} oracle={orc}",
+                                    "features": {"region": "rect", "source": "concrete_validation"}})
     return ok
 
 
